@@ -3,8 +3,34 @@
 use ppoprf::ppoprf::{Client, Server};
 use sta_rs::{AssociatedData, Message, MessageGenerator, SingleMeasurement};
 
+fn route(b: &[u8]) -> u64 {
+  let mut h: u64 = 0xcbf2_9ce4_8422_2325;
+  for x in b {
+    h = (h ^ *x as u64).wrapping_mul(0x0000_0100_0000_01b3);
+  }
+  h >> 7
+}
+
+/// The measurement is wrapped by one of the public constructors (`new`, `From<&str>` when the
+/// bytes are UTF-8), chosen as a pure function of the bytes: all of them must mean the same bytes.
+pub fn measurement(m: &[u8]) -> SingleMeasurement {
+  match (std::str::from_utf8(m), route(m) % 2) {
+    (Ok(s), 0) => SingleMeasurement::from(s),
+    _ => SingleMeasurement::new(m),
+  }
+}
+
+/// likewise for associated data: `new`, `From<&[u8]>`, `From<&str>`
+pub fn associated(a: &[u8]) -> AssociatedData {
+  match (std::str::from_utf8(a), route(a) % 3) {
+    (Ok(s), 0) => AssociatedData::from(s),
+    (_, 1) => AssociatedData::from(a),
+    _ => AssociatedData::new(a),
+  }
+}
+
 pub fn mg(m: &[u8], t: u32, epoch: &[u8]) -> MessageGenerator {
-  MessageGenerator::new(SingleMeasurement::new(m), t, epoch)
+  MessageGenerator::new(measurement(m), t, epoch)
 }
 
 pub fn local_rnd(g: &MessageGenerator) -> [u8; 32] {
@@ -14,7 +40,7 @@ pub fn local_rnd(g: &MessageGenerator) -> [u8; 32] {
 }
 
 pub fn report(g: &MessageGenerator, rnd: &[u8; 32], aux: Option<&[u8]>) -> Result<Message, String> {
-  Message::generate(g, rnd, aux.map(AssociatedData::new)).map_err(|e| format!("Message::generate failed: {e}"))
+  Message::generate(g, rnd, aux.map(associated)).map_err(|e| format!("Message::generate failed: {e}"))
 }
 
 /// One full client <-> randomness-server exchange; returns the finalised 32 bytes.
